@@ -78,6 +78,18 @@ func (s *Sim) exposure(obj client.Object) (e, n int, ok bool) {
 		if w.Spec.UpdateStrategy.Paused {
 			return 0, n, true
 		}
+		if w.Annotations[v1beta1.OriginalDeploymentStrategyAnnotation] != "" && controlledByUID(w) != "" && w.Spec.UpdateStrategy.Partition == nil {
+			// blue-green in progress: maxSurge new pods are created, no old one is removed (maxUnavailable 0, new pods never available)
+			us := w.Spec.UpdateStrategy
+			if w.Spec.MinReadySeconds < v1beta1.MaxReadySeconds || scaled(us.MaxUnavailable, n, false, 0) > 0 {
+				return n, n, true
+			}
+			e = scaled(us.MaxSurge, n, true, 0)
+			if e > n {
+				e = n
+			}
+			return e, n, true
+		}
 		if w.Spec.UpdateStrategy.Partition == nil {
 			return n, n, true
 		}
